@@ -291,6 +291,18 @@ def check_world(rec, case, mjm, qpos, c, rng, bctx=None):
         rec.violations[nv0]["msg"] = f"world {bctx['w']}: the reported contact is exact for {which} taken from another world's row of the batched Model fields; " + rec.violations[nv0].get("msg", "")
         del rec.violations[nv0 + 1 :]
         continue
+    if len(rec.violations) > nv0 and pname == "box-box" and num == "prim" and max(np.abs(o1.mat.T @ n).max(), np.abs(o2.mat.T @ n).max()) < 0.9999:
+      # primitive box_box (NATIVECCD disabled), separating axis = edge x edge (normal is no face normal of either box)
+      dd = np.asarray(c["dist"], dtype=np.float64)[idx]
+      if gap_viol and gap > dist and np.any(np.abs(dd - gap) <= 30 * tol["gap"]):
+        # the pair's true deepest contact (dist = overlap along the normal) is there, next to manifold points that lie deeper
+        rec.violations[nv0]["sig"] = "box-box-primitive:edge-edge:extra-contact-deeper-than-overlap"
+        del rec.violations[nv0 + 1 :]
+        continue
+      if dist > 0 and abs(gap - dist) > tol["gap"]:
+        rec.violations[nv0]["sig"] = "box-box-primitive:edge-edge:separated-dist-not-separation"
+        del rec.violations[nv0 + 1 :]
+        continue
     if len(rec.violations) > nv0 and tag != ":parallel-axes" and num == "prim" and key in refg:
       ra = refg[key][int(np.argmin(refc["dist"][refg[key]]))]
       if abs(float(refc["dist"][ra]) - dist) < 1e-5 and np.abs(refc["frame"][ra][:3] - n).max() < 1e-3:
